@@ -190,6 +190,47 @@ def literal_sets():
     return out
 
 
+def collide_family(rnd, n):
+    """Source sets that use the same file names and the same type, field and enum names for different
+    facts - sizes, values, namespaces, byte orders, conditions.  Whatever a compilation remembers under a
+    name (file, type, position) and does not forget is wrong for the next member of the family, so
+    the members disagree between a fresh process and a process that compiled a sibling first."""
+    out = []
+    for _ in range(n):
+        es = rnd.choice([1, 2, 3, 4, 6, 8])
+        ns = rnd.choice(["fam", "fam::a", "fam::b::c", "other", "x::fam"])
+        bo = rnd.choice(["LittleEndian", "BigEndian"])
+        vals = sorted(rnd.sample(range(0, 200), 3))
+        cnt = rnd.choice([2, 3, 4])
+        lim = rnd.choice([10, 100, 200, 250])
+        w = rnd.choice([3, 4, 5])
+        k = rnd.choice([1, 2, 7, 40])
+        cond = rnd.choice(["tag == %d" % vals[0], "tag > %d" % k, "flag"])
+        imp_es = rnd.choice([1, 2, 4])
+        imp = (
+            '[$default byte_order: "%s"]\n[(cpp) namespace: "%s::imp"]\n'
+            "struct Elem:\n  0 [+%d]  UInt  v\n  let twice = v * %d\n"
+            "enum Kind:\n  AA = %d\n  BB = %d\n" % (rnd.choice(["LittleEndian", "BigEndian"]), rnd.choice(["fam", "q"]), imp_es, k + 1, vals[1], vals[2])
+        )
+        main = (
+            'import "imp.emb" as imp\n[$default byte_order: "%s"]\n[(cpp) namespace: "%s"]\n'
+            "enum Kind:\n  AA = %d\n  BB = %d\n  CC = %d\n"
+            "bits Flags:\n  0 [+%d]  UInt  lo\n  %d [+%d]  UInt  hi\n"
+            "struct Elem:\n  0 [+%d]  UInt  v\n    [requires: this <= %d]\n  let twice = v * %d\n  let c = %d\n"
+            "struct Holder:\n  0 [+1]  UInt  tag\n  1 [+1]  Flags  fl\n  let flag = fl.lo == %d\n"
+            "  2 [+%d]  Elem[%d]  items\n  %d [+%d]  imp.Elem[2]  far\n"
+            "  if %s:\n    %d [+1]  Kind  kind\n    %d [+1]  imp.Kind  ikind\n"
+            "  2 [+%d]  Elem  one\n  %d [+%d]  imp.Elem  ione\n  let total = one.twice + ione.twice + Elem.c\n"
+            "  %d [+1]  bits:\n    0 [+%d]  UInt  p\n    %d [+%d]  UInt  q\n"
+            % (bo, ns, vals[0], vals[1], vals[2], w, w, 8 - w, es, lim, k, k * 3, k % 8,
+               es * cnt, cnt, 2 + es * cnt, imp_es * 2, cond, 2 + es * cnt + imp_es * 2, 3 + es * cnt + imp_es * 2,
+               es, 2 + es * cnt, imp_es,
+               4 + es * cnt + imp_es * 2, w, w, 8 - w)
+        )
+        out.append(({"m.emb": main, "imp.emb": imp}, "m.emb"))
+    return out
+
+
 def generated_sets(seed, n):
     from props import c16_total
     from embgen import textmut, gsample
@@ -249,7 +290,7 @@ def nontrivial(out):
 
 # --- in-process history (stateful) --------------------------------------------------------
 
-def make_machine(sets, stats, seed):
+def make_machine(sets, stats, seed, pristine=None):
     class History(RuleBasedStateMachine):
         def __init__(self):
             super().__init__()
@@ -273,6 +314,12 @@ def make_machine(sets, stats, seed):
             # diagnostics and header must be identical however they were produced
             cmp_out = (out[0], out[2])
             prev = self.first.setdefault(i, cmp_out)
+            # (c) ... and identical to what a process that compiled nothing else produces
+            if pristine is not None and pristine[i] != cmp_out and (i, "pristine") not in self.first:
+                self.first[(i, "pristine")] = True
+                which = "diagnostics" if pristine[i][0] != cmp_out[0] else "header"
+                d = _first_diff(pristine[i][0] or pristine[i][1] or "", cmp_out[0] or cmp_out[1] or "")
+                stats.fail({"kind": "history-dependence", "what": which, "how": "earlier-compilations-vs-fresh-process"}, {"files": sets[i][0], "main": sets[i][1], "how": how, "step": self.steps}, "output of source set %d after %d other compilations in this process differs from its output in a process that compiled nothing else (%s)\nfresh: %r\nnow:   %r" % (i, self.steps, how, d[0], d[1]))
             stats.case(["hist", i, how, self.steps, seed], self.steps >= 3, ["history:" + how], sample=None)
             if prev != cmp_out:
                 which = "diagnostics" if prev[0] != cmp_out[0] else "header"
@@ -343,7 +390,32 @@ def aba_history(stats, sets):
             stats.fail({"kind": "repetition-dependence", "what": which, "how": "A-B-A"}, {"files": files, "main": main, "how": "A-B-A"}, "compiling the same source again, after another text was compiled under the same file name, changed the %s\nfirst: %r\nagain: %r" % (which, d[0], d[1]))
 
 
-def history_shard(idx, seed, sets, n_examples, steps):
+def pristine_outputs(sub):
+    """Output of each source set from a process that has compiled nothing else: a child forked off
+    before this process's first compilation, one per set."""
+    out = []
+    for files, main in sub:
+        r, w = os.pipe()
+        pid = os.fork()
+        if pid == 0:
+            try:
+                os.close(r)
+                o = compile_output(files, main, reset=False)
+                with os.fdopen(w, "wb") as f:
+                    pickle.dump((o[0], o[2]), f)
+            finally:
+                os._exit(0)
+        os.close(w)
+        with os.fdopen(r, "rb") as f:
+            data = f.read()
+        os.waitpid(pid, 0)
+        if not data:
+            raise vlib.HarnessError("pristine compilation child died")
+        out.append(tuple(canon_anon(x) if isinstance(x, str) else x for x in pickle.loads(data)))
+    return out
+
+
+def history_shard(idx, seed, sets, n_examples, steps, family=()):
     stats = vlib.Stats()
     if idx == 0:
         try:
@@ -351,8 +423,12 @@ def history_shard(idx, seed, sets, n_examples, steps):
         except Exception:
             stats.fail(dict(kind="history-machine-exception", **emb.exc_signature()), {}, traceback.format_exc())
     rnd = random.Random(seed * 7 + idx)
-    sub = [sets[i] for i in sorted(rnd.sample(range(len(sets)), min(len(sets), 10)))]
-    M = make_machine(sub, stats, idx)
+    fam = list(family)
+    rest = [i for i in range(len(sets)) if i not in set(fam)]
+    picks = rnd.sample(fam, min(len(fam), 4)) + rnd.sample(rest, min(len(rest), 7))
+    sub = [sets[i] for i in sorted(picks)]
+    pristine = pristine_outputs(sub)
+    M = make_machine(sub, stats, idx, pristine)
     try:
         run_state_machine_as_test(
             hypothesis.seed(seed * 1049 + idx)(M),
@@ -474,7 +550,8 @@ def run(ctx):
         "there are no threads in the compiler; schedules are hash seeds, batch orders, repetition and process boundaries",
     ]
     stats = vlib.Stats()
-    sets = literal_sets() + generated_sets(ctx.seed, ctx.pick(60, 600))
+    family = collide_family(random.Random(ctx.seed * 31 + 5), ctx.pick(8, 40))
+    sets = literal_sets() + family + generated_sets(ctx.seed, ctx.pick(60, 600))
     nseeds = ctx.pick(6, 8)
     schedules = []
     for k, hs in enumerate(HASH_SEEDS[:nseeds]):
@@ -497,7 +574,8 @@ def run(ctx):
                 stats.fail({"kind": "schedule-dependence", "what": which, "how": kind}, {"files": files, "main": main, "schedules": [list(ref_sched), list(sched)]}, "%s differs between (hashseed, order)=%s and %s\nfirst differing line:\n  %r\n  %r" % (which, ref_sched, sched, x, y))
                 break
     # in-process histories
-    hist = vlib.run_shards(history_shard, 8, seed=ctx.seed, sets=sets, n_examples=ctx.pick(4, 30), steps=ctx.pick(12, 30))
+    fam_idx = list(range(len(literal_sets()), len(literal_sets()) + len(family)))
+    hist = vlib.run_shards(history_shard, 8, seed=ctx.seed, sets=sets, n_examples=ctx.pick(4, 30), steps=ctx.pick(12, 30), family=fam_idx)
     stats.merge(hist)
     # CLI sample
     import multiprocessing as mp
